@@ -628,6 +628,9 @@ func NewLockCommandDataPopData(popValue uint32) *LockCommandData {
 }
 
 func (self *LockCommandData) GetValueOffset() int {
+	if len(self.Data) < 8 {
+		return 6
+	}
 	if self.DataFlag&LOCK_DATA_FLAG_CONTAINS_PROPERTY != 0 {
 		return (int(self.Data[6]) | (int(self.Data[7]) << 8)) + 8
 	}
@@ -862,6 +865,9 @@ func NewLockResultCommandDataFromString(data string, commandStage uint8, command
 }
 
 func (self *LockResultCommandData) GetValueOffset() int {
+	if len(self.Data) < 8 {
+		return 6
+	}
 	if self.DataFlag&LOCK_DATA_FLAG_CONTAINS_PROPERTY != 0 {
 		return (int(self.Data[6]) | (int(self.Data[7]) << 8)) + 8
 	}
@@ -949,7 +955,7 @@ func (self *LockResultCommandData) GetKVValue() map[string][]byte {
 }
 
 func (self *LockResultCommandData) GetDataProperties() []*LockCommandDataProperty {
-	if self.DataFlag&LOCK_DATA_FLAG_CONTAINS_PROPERTY == 0 {
+	if self.DataFlag&LOCK_DATA_FLAG_CONTAINS_PROPERTY == 0 || len(self.Data) < 8 {
 		return nil
 	}
 	properties := make([]*LockCommandDataProperty, 0)
@@ -967,7 +973,7 @@ func (self *LockResultCommandData) GetDataProperties() []*LockCommandDataPropert
 }
 
 func (self *LockResultCommandData) GetDataProperty(code uint8) *LockCommandDataProperty {
-	if self.DataFlag&LOCK_DATA_FLAG_CONTAINS_PROPERTY == 0 {
+	if self.DataFlag&LOCK_DATA_FLAG_CONTAINS_PROPERTY == 0 || len(self.Data) < 8 {
 		return nil
 	}
 	propertyLen, index := int(self.Data[6])|int(self.Data[7])<<8, 0
